@@ -20,6 +20,9 @@ def setup():
     log(f"[setup] SANY accepted {len(files)} modules")
     # 2. harness builds offline against /repo's working tree
     core.cargo_build()
+    # 3. the command-line tool and the probe crate (rasn + asn1!) build offline as well
+    core.cargo_build_cli()
+    core.cargo_build_probe()
     return 0
 
 
